@@ -801,6 +801,7 @@ class Evolution(pg.DNAGenerator):
       self._num_proposals += 1
       dna.use_spec(self.dna_spec)
       if reward is not None:
+        reward = self._normalized_reward(reward)
         # NOTE(daiyip): There is a possibility that the client has provided the
         # reward to the controller, but the controller process restarted before
         # calling the `feedback` method. Such cases can be identified by
